@@ -485,6 +485,22 @@ def run(ctx):
                     ch.append({'name': tag, 'value': f'w{i}'})
             trees += 1
             wide_viol += check_tree({'name': 'r', 'children': ch}, f'wide{k}-{pattern}')
+    # tags that repeat or extend the root's own tag ('r' below 'r', 'rb' whose name starts with it): every shape with <= 4
+    # entries (5 thorough), inner entries from {r, rb}, childless ones from {r token, rb token, r tree, a token}
+    inner2, leaf2 = ['r', 'rb'], [('r', 'tok'), ('rb', 'tok'), ('r', 'tree'), ('a', 'tok')]
+    for n in range(2, (4 if ctx.quick else 5) + 1):
+        for shape in shapes(n):
+            slots = []
+
+            def rec(sh, root):
+                if not root:
+                    slots.append(inner2 if sh else leaf2)
+                for c in sh:
+                    rec(c, False)
+            rec(shape, True)
+            for k, labels in enumerate(itertools.product(*slots)):
+                trees += 1
+                wide_viol += check_tree(label_shape(shape, iter(labels)), f'rootlike{n}-{k}')
     ctx.merge(wide_viol)
     ctx.log(f'part A: {trees} labelled trees with <= {n_max} entries (+ wide families)')
     # real parse trees: same laws do not need the reference builder; bijection via pluck on every real module
